@@ -100,6 +100,25 @@ def search(ctx, scale, hints):
             if got != e:
                 fails.append(('%s returns %s, the reference group law gives %s (build %s)' % (l.split()[0], o[:140], e, b),
                               {'build': b, 'script': [l], 'output': [o], 'reference': list(e)}, {'class': 'wrong_sum', 'build': b, 'op': l.split()[0]}))
+        # sums over iterators (every Sum impl, iterators with and without a size hint): the fold of the reference law
+        lines = []; exp = []
+        sums = [(op, k) for op, k in forms(b) if op.split('.')[1] == 'sum']
+        lists = [[], [pool.pick(ctx.rng)]] + [[pool.pick(ctx.rng) for _ in range(n)] for n in (2, 3, 5, 8)] + pool.batches(ctx.rng)[:2]
+        for op, k in sums:
+            for l in lists:
+                a = 'A' in op.split('.')[2].upper() and op.split('.')[2] in ('A', 'a')
+                lines.append('%s %s' % (op, ';'.join((Af(pyref.aff(c)) if a else E(c)) for c in l) if l else '-'))
+                acc = (0, 1)
+                for c in l: acc = pyref.ed_add(acc, pyref.aff(c))
+                exp.append(acc)
+        out = harness.run_script(b, lines) if lines else []
+        for l, o, e in zip(lines, out, exp):
+            try:
+                v = parseE(o); got = pyref.aff(v) if len(v) == 4 else tuple(v)
+            except Exception: got = None
+            if got != e:
+                fails.append(('%s over %d summands returns %s, the reference group law gives %s (build %s)' % (l.split()[0], 0 if l.split()[1] == '-' else l.split()[1].count(';') + 1, o[:140], e, b),
+                              {'build': b, 'script': [l], 'output': [o], 'reference': list(e)}, {'class': 'wrong_sum', 'build': b, 'op': l.split()[0]}))
     return fails
 
 def always(ctx, scale):
